@@ -550,9 +550,8 @@ impl RefPool {
         if p.slot == 0 {
             return p.idx == 0;
         }
-        if p.slot < self.pruned_below {
-            return false;
-        }
+        // NOTE: pruning of decided slots is internal to the pool; a certificate the node received
+        // for the parent keeps certifying it (pruned_below is deliberately not consulted)
         let st = self.slot(p.slot);
         st.c_notar == Some(p.idx) || st.c_nf.contains(&p.idx) || st.c_ff == Some(p.idx)
     }
@@ -570,6 +569,10 @@ impl RefPool {
 
     /// A.3: recompute which fallback signals are due in `slot`; returns newly due ones.
     pub fn update_signals(&mut self, slot: u64) -> (Vec<u8>, bool) {
+        // a decided slot below the pool's watermark is discarded state (C08): nothing is due there
+        if slot < self.pruned_below {
+            return (Vec::new(), false);
+        }
         let mut st = self.slot(slot);
         let own = self.own;
         let own_skip = st.skip.contains(&own);
